@@ -150,6 +150,27 @@ Section Recv.
     | NeedMore => EvWait
     end.
 
+  (** what the server writes for an event: (reply tag, must it be an Rlerror?) -- handleRequest sends
+      newErr(err) with the tag recv returned for a rejected frame; a delivered request is answered by
+      its handler with the request's tag *)
+  Definition reply_of (e : event) : list (N * bool) :=
+    match e with
+    | EvDeliver t _ _ _ => [(t, false)]
+    | EvRlerror t => [(t, true)]
+    | EvShutdown | EvWait => []
+    end.
+  Definition replies (evs : list event) : list (N * bool) := flat_map reply_of evs.
+
+  (** the reply a well-delimited frame must get, read off the frame itself *)
+  Definition frame_reply (f : list N) : N * bool :=
+    let tag := hdr_tag f in
+    let typ := hdr_typ f in
+    let body := dropN headerLength f in
+    match plan_of tag typ (len f - headerLength) with
+    | PDiscard t => (t, true)                 (* unknown type: own tag; short fixed part: NOTAG *)
+    | PBody fixed => if decode_ok typ (takeN fixed body) (dropN fixed body) then (tag, false) else (noTag, true)
+    end.
+
   (** a frame whose size field is its length and passes the header checks *)
   Definition well_delimited (msize : N) (f : list N) : Prop :=
     le32 f = len f /\ hdr_check msize (len f) = true.
